@@ -1207,6 +1207,41 @@ def t_collections_models():
     except IndexError:
         out.append("empty")
     return out
+
+
+def t_enum_members():
+    from enum import Enum, auto
+    import operator
+    class Color(Enum):
+        RED = auto()
+        GREEN = auto()
+        BLUE = 10
+        def nice(self):
+            return self.name.lower()
+        @classmethod
+        def of(cls, n):
+            return cls.RED if n < 0 else cls.GREEN
+    class Op(Enum):
+        ADD = ("plus", operator.add)
+        SUB = ("minus", operator.sub)
+        def __init__(self, label, fn):
+            self.label = label
+            self.fn = fn
+    table = {Color.RED: 1, Color.GREEN: 2}
+    def kind(c):
+        match c:
+            case Color.RED:
+                return "r"
+            case Color.GREEN | Color.BLUE:
+                return "gb"
+    out = [Color.RED.name, Color.RED.value, Color.GREEN.value, Color.BLUE.value, [c.name for c in Color], Color(10) is Color.BLUE, Color["GREEN"] is Color.GREEN, Color.RED == Color.RED,
+           Color.RED == Color.GREEN, Color.RED != 1, Color.RED.nice(), Color.of(-1) is Color.RED, table[Color.GREEN], isinstance(Color.RED, Color), Op.ADD.label, Op.SUB.fn(5, 3),
+           Op.ADD.value[0], [kind(c) for c in Color], len(list(Color)), Color.RED in table, Color.BLUE in table]
+    try:
+        Color(99)
+    except ValueError:
+        out.append("invalid")
+    return out
 '''
 
 
